@@ -731,24 +731,31 @@ Section XmlOracles.
     end.
 
 
-  Fixpoint pxlex (fuel : nat) (s : list N) : xlres :=
+  (* pugixml's nodes in text order: a tag or plain character data (PT), a CDATA section (PCd: node_cdata, always kept by
+     parse_cdata, also an empty or white-space-only one), a comment / processing instruction / late declaration (PMisc: not
+     kept in the tree, but white space before it is not "directly followed by the end tag") *)
+  Inductive ptok := PT (t : xtok) | PCd (s : list N) | PMisc.
+  Inductive pxlres := PLOk (ts : list ptok) | PLErr | PLFuel.
+  Definition pcons (t : ptok) (r : pxlres) : pxlres := match r with PLOk ts => PLOk (t :: ts) | e => e end.
+
+  Fixpoint pxlex (fuel : nat) (s : list N) : pxlres :=
     match fuel with
-    | O => XLFuel
+    | O => PLFuel
     | S f =>
       match s with
-      | [] => XLOk []
+      | [] => PLOk []
       | c :: r =>
         if c =? 60 then
           match r with
-          | [] => XLErr
+          | [] => PLErr
           | c1 :: r1 =>
             if c1 =? 47 then                                               (* ETag ::= '</' Name S? '>' *)
               match lex_name r1 with
               | Some (n, r2) => match skip_ws r2 with
-                                | e :: r3 => if e =? 62 then xlcons (XClose n) (pxlex f r3) else XLErr
-                                | [] => XLErr
+                                | e :: r3 => if e =? 62 then pcons (PT (XClose n)) (pxlex f r3) else PLErr
+                                | [] => PLErr
                                 end
-              | None => XLErr
+              | None => PLErr
               end
             else if c1 =? 63 then                                          (* PI ::= '<?' PITarget (S ...)? '?>' *)
               match lex_name r1 with
@@ -757,45 +764,44 @@ Section XmlOracles.
                   match r2 with
                   | c2 :: _ =>
                     if is_xws c2 || starts [63; 62] r2 then
-                      match scan_until [63; 62] r2 with Some (_, r3) => pxlex f r3 | None => XLErr end
-                    else XLErr
-                  | [] => XLErr
+                      match scan_until [63; 62] r2 with Some (_, r3) => pcons PMisc (pxlex f r3) | None => PLErr end
+                    else PLErr
+                  | [] => PLErr
                   end
-              | None => XLErr
+              | None => PLErr
               end
             else if c1 =? 33 then
               match strip_prefix [45; 45] r1 with
               | Some r2 =>                                                 (* Comment: no "--" inside *)
                 match scan_until [45; 45] r2 with
-                | Some (_, e :: r3) => if e =? 62 then pxlex f r3 else XLErr
-                | _ => XLErr
+                | Some (_, e :: r3) => if e =? 62 then pcons PMisc (pxlex f r3) else PLErr
+                | _ => PLErr
                 end
               | None =>
                 match strip_prefix [91; 67; 68; 65; 84; 65; 91] r1 with   (* CDSect *)
                 | Some r2 =>
                   match scan_until [93; 93; 62] r2 with
-                  | Some ([], r3) => pxlex f r3
-                  | Some (t, r3) => xlcons (XTxt t) (pxlex f r3)
-                  | None => XLErr
+                  | Some (t, r3) => pcons (PCd t) (pxlex f r3)
+                  | None => PLErr
                   end
-                | None => XLErr                                            (* DOCTYPE etc.: outside the subset *)
+                | None => PLErr                                            (* DOCTYPE etc.: outside the subset *)
                 end
               end
             else                                                           (* STag / EmptyElemTag *)
               match lex_name r with
               | Some (n, r2) =>
                 match px_lex_attrs f false r2 [] with
-                | Some (a, EndTag, r3) => xlcons (XOpen n a) (pxlex f r3)
-                | Some (a, EndEmpty, r3) => xlcons (XEmpty n a) (pxlex f r3)
-                | _ => XLErr
+                | Some (a, EndTag, r3) => pcons (PT (XOpen n a)) (pxlex f r3)
+                | Some (a, EndEmpty, r3) => pcons (PT (XEmpty n a)) (pxlex f r3)
+                | _ => PLErr
                 end
-              | None => XLErr
+              | None => PLErr
               end
           end
         else
           match lex_text None [] s with
-          | Some (t, r') => xlcons (XTxt t) (pxlex f r')
-          | None => XLErr
+          | Some (t, r') => pcons (PT (XTxt t)) (pxlex f r')
+          | None => PLErr
           end
       end
     end.
@@ -824,23 +830,31 @@ Section XmlOracles.
   (* parse_default | parse_ws_pcdata_single: white-space-only character data is dropped unless it is directly followed
      by the end tag and its element has no child so far; character data split by a comment, a processing instruction
      or a CDATA section stays split (separate pcdata / cdata nodes); comments, PIs and the declaration are not kept *)
-  Fixpoint px_filter (stack : list bool) (ts : list xtok) : list xtok :=
+  Fixpoint px_filter (stack : list bool) (ts : list ptok) : list xtok :=
+    let child (st : list bool) := match st with _ :: r => true :: r | [] => [] end in
     match ts with
     | [] => []
-    | XOpen n a :: r => XOpen n a :: px_filter (false :: match stack with _ :: st => true :: st | [] => [] end) r
-    | XEmpty n a :: r => XEmpty n a :: px_filter (match stack with _ :: st => true :: st | [] => [] end) r
-    | XClose n :: r => XClose n :: px_filter (match stack with _ :: st => st | [] => [] end) r
-    | XTxt s :: r =>
-      (* character data at document level (outside the document element) is skipped, whatever it is *)
+    | PMisc :: r => px_filter stack r
+    | PT (XOpen n a) :: r => XOpen n a :: px_filter (false :: child stack) r
+    | PT (XEmpty n a) :: r => XEmpty n a :: px_filter (child stack) r
+    | PT (XClose n) :: r => XClose n :: px_filter (match stack with _ :: st => st | [] => [] end) r
+    | PCd s :: r =>
+      (* character data at document level (outside the document element) is skipped, whatever it is; inside an element a
+         CDATA section always becomes a node (an empty one too: the element then has a text child whose value is empty) *)
+      if match stack with [] => true | _ :: _ => false end then px_filter stack r
+      else XTxt s :: px_filter (child stack) r
+    | PT (XTxt s) :: r =>
       if match stack with [] => true | _ :: _ => false end then px_filter stack r
       else if ws_only s then
-        let sole := match r, stack with XClose _ :: _, false :: _ => true | _, _ => false end in
-        if sole then XTxt s :: px_filter (match stack with _ :: st => true :: st | [] => [] end) r
+        (* parse_ws_pcdata_single: white space is kept only when the end tag follows it directly and the element has no
+           child so far (a CDATA node counts as a child; a comment or PI after the white space is not the end tag) *)
+        let sole := match r, stack with PT (XClose _) :: _, false :: _ => true | _, _ => false end in
+        if sole then XTxt s :: px_filter (child stack) r
         else px_filter stack r
-      else XTxt s :: px_filter (match stack with _ :: st => true :: st | [] => [] end) r
+      else XTxt s :: px_filter (child stack) r
     end.
 
-  Definition drop_ws_tokens (ts : list xtok) : list xtok := px_filter [] ts.
+  Definition drop_ws_tokens (ts : list ptok) : list xtok := px_filter [] ts.
 
   Definition px_parse (s0 : list N) : xres :=
     let s := norm_eol s0 in
@@ -848,9 +862,9 @@ Section XmlOracles.
     | None => XErr
     | Some (_, s1) =>
       match pxlex (S (length s1)) s1 with
-      | XLErr => XErr
-      | XLFuel => XFuel
-      | XLOk ts =>
+      | PLErr => XErr
+      | PLFuel => XFuel
+      | PLOk ts =>
         let ts1 := drop_ws_tokens ts in
         match xbuild (2 * length ts1 + 2) ts1 with
         | BOk root [] => XOk root
